@@ -10,6 +10,18 @@ static inline void qhash_addData(qhash *h, qbytes b) { *h = HASH_ADD(*h, b); }
 static inline qbytes qhash_result(qhash h) { return __CPROVER_uninterpreted_hash_result(h); }
 
 long long nondet_longlong(void);
+/* qMin / qMax / std::min / std::max on integers (pure; arguments evaluated once) */
+static inline long long c_min_s64(long long a, long long b) { return a < b ? a : b; }
+static inline long long c_max_s64(long long a, long long b) { return a < b ? b : a; }
+static inline unsigned long long c_min_u64(unsigned long long a, unsigned long long b) { return a < b ? a : b; }
+static inline unsigned long long c_max_u64(unsigned long long a, unsigned long long b) { return a < b ? b : a; }
+/* A-PARSEINT: std::optional<T> parseInt<T>(QStringView) under its C01 contract */
+#define C19_OPT(N, T) typedef struct Opt##N { bool has; T v; } Opt##N;
+C19_OPT(S8, qint8) C19_OPT(U8, quint8) C19_OPT(S16, qint16) C19_OPT(U16, quint16) C19_OPT(S32, qint32) C19_OPT(U32, quint32) C19_OPT(S64, qint64) C19_OPT(U64, quint64)
+#define C19_PARSEINT_U(N, T, MAXV) static inline void parseInt_##N(Opt##N *r, qstr s) { bool k; unsigned long long v = qstr_toULongLong(s, &k); r->has = k && v <= (MAXV); r->v = r->has ? (T)v : (T)0; }
+#define C19_PARSEINT_S(N, T, MINV, MAXV) static inline void parseInt_##N(Opt##N *r, qstr s) { bool k; long long v = qstr_toLongLong(s, &k); r->has = k && v >= (MINV) && v <= (MAXV); r->v = r->has ? (T)v : (T)0; }
+C19_PARSEINT_U(U8, quint8, 255ull) C19_PARSEINT_U(U16, quint16, 65535ull) C19_PARSEINT_U(U32, quint32, 4294967295ull) C19_PARSEINT_U(U64, quint64, 18446744073709551615ull)
+C19_PARSEINT_S(S8, qint8, -128, 127) C19_PARSEINT_S(S16, qint16, -32768, 32767) C19_PARSEINT_S(S32, qint32, -2147483647ll - 1, 2147483647ll) C19_PARSEINT_S(S64, qint64, -9223372036854775807ll - 1, 9223372036854775807ll)
 /* ghost logs are grouped in a few structs: a contract names one assigns target per log (dfcc checks every assignment against
    every target) */
 struct gh_devw_s { int writes; qbytes data; long long ret; QIODevice *dev; } gh_devw;   /* log of QIODevice::write */
@@ -30,8 +42,11 @@ static inline long long QIODevice_write(QIODevice *dev, qbytes data) {
   return w;
 }
 static inline qbytes QIODevice_read(QIODevice *dev, long long maxlen) {
+  long long want = maxlen > 0 ? maxlen : 0;
+  long long n = dev->avail < want ? dev->avail : want;
   qbytes b = nondet_int();
-  __CPROVER_assume(b >= 0 && (long long)qbytes_size(b) <= (maxlen > 0 ? maxlen : 0));
+  __CPROVER_assume(b >= 0 && (long long)qbytes_size(b) == n);      /* n == 0 <=> the empty array */
+  dev->avail -= n;
   if (gh_dev_reads < 1000) gh_dev_reads++;
   gh_dev_r_max = maxlen; gh_dev_r_ret = b; gh_dev_r_dev = dev;
   return b;
@@ -82,7 +97,7 @@ static inline bool ev_invoke(const void *obj, qstr method) { if (gh_invoked < 10
  * is known about the others.  Iteration is by index 0..n-1 (lowering rule rangefor:QListJobs). */
 static inline QXmppTransferJob *QListJobs_at(const QListJobs *l, int i) {
   if (i == l->iw) return l->w;
-  l->o->d->direction = nondet_int(); l->o->d->jid = nondet_qstr(); l->o->d->sid = nondet_qstr(); l->o->d->requestId = nondet_qstr();
+  l->o->d->direction = nondet_bool() ? QXmppTransferJob_Direction__IncomingDirection : QXmppTransferJob_Direction__OutgoingDirection; l->o->d->jid = nondet_qstr(); l->o->d->sid = nondet_qstr(); l->o->d->requestId = nondet_qstr();
   return l->o;
 }
 int gh_found_idx;                     /* ghost hook in the lookups: index at which the returned job was found */
@@ -109,8 +124,9 @@ QXmppTransferManagerPrivate g_mp; QXmppTransferManager g_mgr;
 #define PW gw_priv
 #define PO go_priv
 #define JOBS_WIRED (gw_job.d == &gw_priv && go_job.d == &go_priv && gw_priv.iodevice == &gw_dev && go_priv.iodevice == &go_dev && (gw_priv.socksSocket == NULL || gw_priv.socksSocket == &gw_sock) && (go_priv.socksSocket == NULL || go_priv.socksSocket == &go_sock))
-#define JOBLIST_OK(l) ((l).n >= 0 && (l).w == &gw_job && (l).o == &go_job && JOBS_WIRED)
-#define IS_JOB(j) (((j) == &gw_job || (j) == &go_job) && JOBS_WIRED)
+#define JOBS_ENUMS_OK (JOB_ENUMS_OK(&gw_priv) && JOB_ENUMS_OK(&go_priv))
+#define JOBLIST_OK(l) ((l).n >= 0 && (l).w == &gw_job && (l).o == &go_job && JOBS_WIRED && JOBS_ENUMS_OK)
+#define IS_JOB(j) (((j) == &gw_job || (j) == &go_job) && JOBS_WIRED && JOBS_ENUMS_OK)
 #define WORLD_OK (g_mgr.d == &g_mp && JOBLIST_OK(g_mp.jobs))
 /* Harness prologue: arbitrary contents for every object, then the pointers between them are *assigned* (CBMC resolves a
    dereference through the values a pointer was assigned, not through assumptions about it).  socksSocket is NULL or the socket. */
@@ -133,7 +149,7 @@ QXmppTransferManagerPrivate g_mp; QXmppTransferManager g_mgr;
 #define UNCHANGED(p, seq0, blocks0, done0, hash0) ((p).ibbSequence == (seq0) && (p).gh_blocks == (blocks0) && (p).done == (done0) && (p).hash == (hash0))
 #define INBAND_TRANSFERRING(p) ((p).method == QXmppTransferJob_Method__InBandMethod && (p).state == QXmppTransferJob_State__TransferState)
 /* the specification's own verdict on received data (DESIGN 6 C19): size matches if one was announced, hash matches if one was announced */
-#define DATA_OK(p) (((p).fileInfo.size == 0 || (p).done == (p).fileInfo.size) && ((p).fileInfo.hash == 0 || __CPROVER_uninterpreted_hash_result((p).hash) == (p).fileInfo.hash))
+#define DATA_OK(p) (((p).fileInfo.d.size == 0 || (p).done == (p).fileInfo.d.size) && ((p).fileInfo.d.hash == 0 || __CPROVER_uninterpreted_hash_result((p).hash) == (p).fileInfo.d.hash))
 #define VERDICT(p) (DATA_OK(p) ? QXmppTransferJob_Error__NoError : QXmppTransferJob_Error__FileCorruptError)
 #define FINISHED QXmppTransferJob_State__FinishedState
 #define KNOWN_INBAND ((gh_job == &gw_job && PW.method == QXmppTransferJob_Method__InBandMethod) || (gh_job == &go_job && PO.method == QXmppTransferJob_Method__InBandMethod))
@@ -141,8 +157,22 @@ QXmppTransferManagerPrivate g_mp; QXmppTransferManager g_mgr;
 #define SENDER_IDLE(p, blocks0, done0, seq0) (gh_sent == 0 && gh_dev_reads == 0 && gh_term_calls == 0 && (p).gh_blocks == (blocks0) && (p).done == (done0) && (p).ibbSequence == (seq0))
 #define SENDER_STEP(p, j, dev, state0, open0, blocks0, done0, bs0, seq0) ( \
   (!((p).method == QXmppTransferJob_Method__InBandMethod && (state0) != FINISHED && (open0)) ? (SENDER_IDLE(p, blocks0, done0, seq0) && (p).state == (state0)) : \
-   iq->type == QXmppIq_Type__Result ? (gh_dev_reads == 1 && gh_dev_r_dev == &(dev) && gh_dev_r_max == (long long)(bs0) && gh_sent == 1 && gh_sent_to == (p).jid && gh_sent_sid == (p).sid && (p).requestId == gh_sent_id && \
+   iq->type == QXmppIq_Type__Result ? (gh_dev_reads == 1 && gh_dev_r_dev == &(dev) && gh_sent == 1 && gh_sent_to == (p).jid && gh_sent_sid == (p).sid && (p).requestId == gh_sent_id && \
       (gh_dev_r_ret != 0 ? (gh_sent_kind == 2 && gh_sent_seq == (quint16)(blocks0) && gh_sent_payload == gh_dev_r_ret && (p).gh_blocks == (blocks0) + 1 && (p).done == (done0) + QBYTES_LEN(gh_dev_r_ret) && gh_term_calls == 0 && (p).state == QXmppTransferJob_State__TransferState) \
                          : (gh_sent_kind == 3 && (p).gh_blocks == (blocks0) && (p).done == (done0) && gh_term_calls == 1 && gh_term_job == &(j) && gh_term_cause == QXmppTransferJob_Error__NoError && (p).state == FINISHED && (p).error == QXmppTransferJob_Error__NoError))) : \
    iq->type == QXmppIq_Type__Error ? (gh_dev_reads == 0 && gh_sent == 1 && gh_sent_kind == 3 && gh_sent_to == (p).jid && gh_sent_sid == (p).sid && (p).requestId == gh_sent_id && (p).gh_blocks == (blocks0) && gh_term_calls == 1 && gh_term_job == &(j) && gh_term_cause == QXmppTransferJob_Error__ProtocolError && (p).state == FINISHED && (p).error == QXmppTransferJob_Error__ProtocolError) : \
    (SENDER_IDLE(p, blocks0, done0, seq0) && (p).state == (state0))))
+/* ---- QXmppTransferFileInfo::parse: the specification's reading of an attribute (qtmodel/opaque.h, conv.h) */
+#define DOM_ATTR(e, name) ((e) == 0 ? 0 : __CPROVER_uninterpreted_dom_attr((e), (name)))
+#define LATIN1_(s) ((s) == 0 ? 0 : __CPROVER_uninterpreted_latin1_enc(s))
+#define HEX_DECODED(s) (LATIN1_(s) == 0 ? 0 : __CPROVER_uninterpreted_hex_dec(LATIN1_(s)))
+/* QXmppUtils::datetimeFromString: some function of the string (the date of a file offer is outside this property) */
+qdt __CPROVER_uninterpreted_xmpp_datetime(qstr s);
+static inline qdt QXmppUtils_datetimeFromString(qstr s) { return __CPROVER_uninterpreted_xmpp_datetime(s); }
+/* sender, on an acknowledgement for an active in-band job (method in-band, not finished, device open): what is read and sent depends on
+   the device and the negotiated block size only -- not on the announced size (0 = not announced is legal) */
+#define SENDER_ACTIVE(p, state0, open0) ((p).method == QXmppTransferJob_Method__InBandMethod && (state0) != FINISHED && (open0) && iq->type == QXmppIq_Type__Result)
+#define MIN_(a, b) ((a) < (b) ? (a) : (b))
+#define NEXT_BLOCK(p, dev, state0, open0, bs0, avail0) ((SENDER_ACTIVE(p, state0, open0) && (bs0) > 0 && (avail0) > 0) ==> \
+   (gh_sent_kind == 2 && (long long)QBYTES_LEN(gh_sent_payload) == MIN_((long long)(bs0), (avail0)) && (dev).avail == (avail0) - MIN_((long long)(bs0), (avail0))))
+#define CLOSE_ONLY_AT_END(p, state0, open0, bs0, avail0) ((SENDER_ACTIVE(p, state0, open0) && (bs0) > 0 && gh_sent == 1 && gh_sent_kind == 3) ==> (avail0) == 0)
